@@ -4,6 +4,7 @@ import DryocVerif.Spec.ChaCha20
 import DryocVerif.Spec.SipHash
 import DryocVerif.Spec.Hmac
 import DryocVerif.Proofs.Blake2bCompress
+import DryocVerif.Proofs.CtEq
 /-
 `Model.Core` (the shape of crypto_core.rs / siphash24.rs / crypto_auth.rs) equals the executable
 specifications `Spec.Salsa20.hsalsa20`, `Spec.ChaCha20.hchacha20`, `Spec.SipHash.siphash24`,
@@ -610,9 +611,34 @@ theorem hmacVerify_ok_iff (key msg mac : Bytes) (hk : key.length ≤ 128) :
     hmacVerify Spec.Sha512.sha512 mac msg key = .ok () ↔ mac = Spec.Hmac.hmacSha512256 key msg := by
   unfold hmacVerify
   rw [hmac_eq_spec_le key msg hk]
+  simp only [Proofs.OnetimeAuth.ctEq_eq]
   by_cases h : mac = Spec.Hmac.hmacSha512256 key msg
   · simp [h]
   · simp [h]
+
+/-- `crypto_auth_verify` returns `Err` exactly on every other `mac` (the decision is taken by `subtle`'s `ct_eq`,
+`Model.OnetimeAuth.ctEq`; that it is byte-string equality is `ctEq_one_iff`) -/
+theorem hmacVerify_err_iff (key msg mac : Bytes) (hk : key.length ≤ 128) :
+    hmacVerify Spec.Sha512.sha512 mac msg key = .err ↔ mac ≠ Spec.Hmac.hmacSha512256 key msg := by
+  unfold hmacVerify
+  rw [hmac_eq_spec_le key msg hk]
+  simp only [Proofs.OnetimeAuth.ctEq_eq]
+  by_cases h : mac = Spec.Hmac.hmacSha512256 key msg
+  · simp [h]
+  · simp [h]
+
+/-- the model's decision written with `=` (what the definition said before it was switched to `ct_eq`) -/
+theorem hmacVerify_eq_if (H : Bytes → Bytes) (mac msg key : Bytes) :
+    hmacVerify H mac msg key =
+      match hmac H key msg with
+      | .ok computed => if mac = computed then .ok () else .err
+      | .err => .err
+      | .panic => .panic := by
+  unfold hmacVerify
+  cases hmac H key msg with
+  | ok c => simp only [Proofs.OnetimeAuth.ctEq_eq]; by_cases h : mac = c <;> simp [h]
+  | err => rfl
+  | panic => rfl
 
 end Hmac
 
